@@ -164,6 +164,12 @@ def encode_model(it, recv: VStr, args, kwargs):
     if enc is None:
         raise Unsupported("symbolic encoding name")
     enc = enc.lower().replace("_", "-")
+    import codecs
+
+    try:
+        codecs.lookup(enc)
+    except LookupError:
+        raise Unsupported(f"unknown text encoding {enc!r} (Python raises LookupError)")
     c = vals.concrete_str(recv)
     if c is not None:
         try:
@@ -198,6 +204,12 @@ def decode_model(it, recv: VStr, args, kwargs):
     if enc is None:
         raise Unsupported("symbolic encoding name")
     enc = enc.lower().replace("_", "-")
+    import codecs
+
+    try:
+        codecs.lookup(enc)
+    except LookupError:
+        raise Unsupported(f"unknown text encoding {enc!r} (Python raises LookupError)")
     e = uf(f"encode[{enc}]", STR, STR)
     d = uf(f"decode[{enc}]", STR, STR)
     r = d(recv.t)
